@@ -13,6 +13,9 @@ BLOCK_EDITS = ["drop_last_tx", "dup_first_tx", "swap_txs", "tamper_tx_data", "ze
                "resign_other_key", "bump_timestamp_nosign", "bump_treasury_resign", "bump_burnfee_resign"]
 
 
+SIDE_EDITS = ["drop_last_tx", "swap_txs", "tamper_tx_data", "resign_other_key", "flip_block_sig", "dup_first_tx"]
+
+
 class Gen:
     def __init__(self, rnd, g, nkeys, big=False):
         self.rnd = rnd
@@ -148,9 +151,34 @@ class Gen:
         self.pool = {}   # keep the model simple: pooled transactions are not tracked across a reorg
         parent = fork
         poison = self.rnd.random() < 0.3 and self.spent
+        forged = (not poison) and self.rnd.random() < 0.25
         for i in range(d + 1):
             self.nlabel += 1
             lab = "s%d" % self.nlabel
+            if forged and i == 0:
+                # the first block of the competing branch - stored as a side block, validated only when the
+                # branch overtakes - has been edited under its signed header (C06); the branch must never win
+                txs = []
+                for _ in range(2):
+                    t = self.newtx(self.h + 1, fee_p=0.0, path_p=0.0, two_in_p=0.0)
+                    if t and not (set(t["ins"]) & {n for x in txs for n in x["ins"]}):
+                        txs.append(t)
+                if txs:
+                    e = self.rnd.choice(SIDE_EDITS)
+                    self.steps.append(dict(op="block", label=lab, parent=parent, gt=True, txs=txs, bedit=e, tag="bedit-side:" + e, gap=2))
+                    par = lab
+                    for j in range(d):
+                        self.nlabel += 1
+                        l2 = "s%d" % self.nlabel
+                        t = dict(id="t%d" % (self.ntx + 1), signer=txs[0]["signer"], ins=["%s.0" % txs[0]["id"]],
+                                 outs=[[self.rnd.choice(self.keys), 0]], fee=0, path=[])
+                        self.ntx += 1
+                        txs = [t]
+                        self.steps.append(dict(op="block", label=l2, parent=par, gt=True, txs=[t], tag="fork-on-edited", gap=2))
+                        par = l2
+                self.outs, self.h, self.spent = dict(old_outs), old_h, dict(old_spent)
+                self.chain = old_chain
+                return True
             if poison and i >= 1:
                 # the competing branch carries a block spending an output that was already spent below the
                 # fork point: the reorganisation must fail and leave everything as it was
@@ -394,6 +422,46 @@ def dust_spend_scenario(rnd):
                 tag="dust-spend")
 
 
+GENESIS_EDITS = ["drop_all_txs", "drop_last_tx", "swap_txs", "dup_first_tx", "tamper_tx_data", "flip_block_sig", "resign_other_key"]
+MIDCHAIN_EDITS = ["drop_last_tx", "swap_txs", "dup_first_tx", "tamper_tx_data", "zero_root_drop_tx", "flip_block_sig", "resign_other_key"]
+
+
+def first_block_scenarios(rnd):
+    """every edit, both ways"""
+    return [first_block_scenario(rnd, genesis=e) for e in GENESIS_EDITS] + [first_block_scenario(rnd, mid=e) for e in MIDCHAIN_EDITS]
+
+
+def first_block_scenario(rnd, genesis=None, mid=None):
+    """a fresh node: either the genesis block it is offered first has been edited under its signed header, or it
+    joins the chain in the middle (it never sees the first blocks) and the next block it is offered is edited"""
+    issuance = [["k1", 100000], ["k2", 50000], ["k1", 70000], ["k2", 30000], ["k1", 20000], ["k2", 10000]]
+    ntx = [0]
+
+    def tx(signer, ins, outs, fee=0):
+        ntx[0] += 1
+        return dict(id="t%d" % ntx[0], signer=signer, ins=ins, outs=outs, fee=fee, path=[])
+
+    steps = []
+    if genesis or (mid is None and rnd.random() < 0.4):
+        e = genesis or rnd.choice(GENESIS_EDITS)
+        steps.append(dict(op="block", label="b2", gt=True, gap=2, tag="good", txs=[tx("k1", ["g0"], [["k2", 0]], 3)]))
+        steps.append(dict(op="block", label="b3", gt=True, gap=2, tag="good", txs=[tx("k2", ["g1"], [["k1", 0]], 2)]))
+        return dict(g=10, hb=100, keys=2, issuance=issuance, node_key="k1", replica=True, steps=steps, genesis_edit=e, tag="genesis-edit")
+    k = rnd.randint(2, 4)
+    par = "b1"
+    for h in range(2, 2 + k):
+        lab = "b%d" % h
+        steps.append(dict(op="block", label=lab, parent=par, gt=True, gap=2, tag="held" if h < 1 + k else "good", hold=h < 1 + k,
+                          txs=[tx("k1", ["g0"] if h == 2 else ["t%d.0" % (ntx[0])], [["k1", 0]], 1)]))
+        par = lab
+    e = mid or rnd.choice(MIDCHAIN_EDITS)
+    h = 2 + k
+    two = [tx("k2", ["g1"], [["k1", 0]], 2), tx("k2", ["g3"], [["k2", 0]], 0)]
+    steps.append(dict(op="block", label="x%d" % h, parent=par, gt=True, gap=2, bedit=e, tag="bedit-midchain:" + e, txs=two))
+    steps.append(dict(op="block", label="b%d" % h, parent=par, gt=True, gap=2, tag="good", txs=[tx("k2", ["g5"], [["k1", 0]], 2)]))
+    return dict(g=10, hb=100, keys=2, issuance=issuance, node_key="k1", replica=False, steps=steps, skip_genesis=True, tag="midchain")
+
+
 def lottery_scenario(rnd, seed_no):
     """blocks full of fee-paying transactions with different senders, routers and path lengths, paid out by
     the next ticket (and by the one after, when a block goes without a ticket); the ticket seed selects the
@@ -462,6 +530,7 @@ def scenarios(seed, n, long_p=0.3):
         out.append(work_scenario(rnd))
     for i in range(max(2, n // 25)):
         out.append(dust_spend_scenario(rnd))
+    out += first_block_scenarios(rnd)
     for i in range(n - 2 * (n // 6)):
         g = rnd.choice([3, 3, 4, 6])
         big = rnd.random() < 0.1
